@@ -2,7 +2,8 @@ use std::collections::HashMap;
 #[cfg(not(similari_verif))]
 use std::sync::{Arc, RwLock, RwLockReadGuard, RwLockWriteGuard};
 #[cfg(similari_verif)]
-use similari_verif_rt::sync::{Arc, RwLock, RwLockReadGuard, RwLockWriteGuard};
+#[allow(unused_imports)]
+use similari_verif_rt::sync::*;
 
 use rand::Rng;
 
